@@ -3,6 +3,7 @@ package api
 import (
 	"bufio"
 	"fmt"
+	"github.com/kubeshark/base/pkg/verifhook"
 	"net"
 	"sync"
 	"time"
@@ -140,11 +141,13 @@ type Emitter interface {
 }
 
 func (e *Emitting) Emit(item *OutputChannelItem) {
+	verifhook.Yield("emit.pre")
 	e.AppStats.IncMatchedPairs()
 	e.Stream.SetAsEmittable()
 
 	item.Stream = e.Stream.GetPcapId()
 	item.Index = e.Stream.GetIndex()
+	verifhook.Yield("emit.mid")
 	e.Stream.IncrementItemCount()
 	e.OutputChannel <- item
 }
